@@ -116,13 +116,20 @@ Proof.
   split; [exact Hfit|reflexivity].
 Qed.
 
+(** NB never let Coq CONVERT [read_txt img] with [read_regs txt_layout img] in a hypothesis: the
+    [let r := ... in (.. fst r, .. snd r)] of the loop makes that comparison exponential in the
+    length of the table; rewrite with this equation instead. *)
+Lemma read_txt_unfold img : read_txt img = read_regs txt_layout img.
+Proof. unfold read_txt. reflexivity. Qed.
+
 Lemma txt_reg_value img id w roff rn :
   find_entry id txt_layout = Some (roff, rn) ->
   In (id, w) (fst (read_txt img)) -> (roff + rn <= length img)%nat /\ w = le_at img roff rn.
 Proof.
-  intros Hf Hin. destruct (read_regs_sound _ _ _ _ Hin) as (o & n & HinL & Hfit & ->).
+  intros Hf Hin. rewrite read_txt_unfold in Hin.
+  destruct (read_regs_sound txt_layout img id w Hin) as (o & n & HinL & Hfit & ->).
   apply find_entry_In in Hf.
-  destruct (nodup_ids_functional _ _ _ _ _ _ txt_ids_nodup Hf HinL) as [<- <-].
+  destruct (nodup_ids_functional txt_layout id roff rn o n txt_ids_nodup Hf HinL) as [<- <-].
   split; [exact Hfit|reflexivity].
 Qed.
 
@@ -162,7 +169,7 @@ Theorem key_quarters_agree : forall slot k, In (slot, k) key_slots ->
 Proof.
   intros slot k Hin.
   assert (Hs : slot_inside slot "TXT.PUBLIC.KEY" k = true).
-  { pose proof key_slots_inside as H. rewrite forallb_forall in H. apply (H (slot, k) Hin). }
+  { pose proof key_slots_inside as H. rewrite forallb_forall in H. exact (H (slot, k) Hin). }
   destruct (slot_in_register _ _ _ Hs) as (soff & sn & Hf & Hagree).
   assert (sn = 8%nat).
   { unfold key_slots in Hin. cbn [In] in Hin.
@@ -221,39 +228,47 @@ Theorem pair_sound : forall specs accs ta ra slot id,
     got_at (a_val at_) v = got_at (a_val ar) w.
 Proof.
   intros specs accs ta ra slot id H. unfold pair_ok in H.
-  destruct (find_spec ta specs) as [[Wt st]|]; [|discriminate].
-  destruct (find_spec ra specs) as [[Wr sr]|]; [|discriminate].
-  destruct (find_accessor ta accs) as [at_|]; [|discriminate].
-  destruct (find_accessor ra accs) as [ar|]; [|discriminate].
-  destruct (find_entry slot all_tools_slots) as [[soff sn]|] eqn:Es; [|discriminate].
-  destruct (find_entry id txt_layout) as [[roff rn]|] eqn:Er; [|discriminate].
-  destruct (spec_slice st) as [[lo w']|] eqn:Esl.
-  2:{ rewrite andb_false_r in H. discriminate. }
-  repeat (apply andb_true_iff in H; destruct H as [H ?]).
+  destruct (find_spec ta specs) as [[Wt st]|]; [|discriminate H].
+  destruct (find_spec ra specs) as [[Wr sr]|]; [|discriminate H].
+  destruct (find_accessor ta accs) as [at_|]; [|discriminate H].
+  destruct (find_accessor ra accs) as [ar|]; [|discriminate H].
+  destruct (find_entry slot all_tools_slots) as [[soff sn]|] eqn:Es; [|discriminate H].
+  destruct (find_entry id txt_layout) as [[roff rn]|] eqn:Er; [|discriminate H].
+  cbv beta iota in H.
+  apply andb_true_iff in H. destruct H as [H Hlast].
+  destruct (spec_slice st) as [[lo w']|] eqn:Esl; cbv beta iota in Hlast; [|discriminate Hlast].
+  apply N.leb_le in Hlast. rename Hlast into Hsl.
+  apply andb_true_iff in H. destruct H as [H HWr]. apply N.eqb_eq in HWr.
+  apply andb_true_iff in H. destruct H as [H HWt]. apply N.eqb_eq in HWt.
+  apply andb_true_iff in H. destruct H as [H Hoff]. apply Nat.eqb_eq in Hoff. subst roff.
+  apply andb_true_iff in H. destruct H as [H Hcr].
+  apply andb_true_iff in H. destruct H as [H Hct].
+  apply andb_true_iff in H. destruct H as [H Hwr]. apply N.eqb_eq in Hwr.
+  apply andb_true_iff in H. destruct H as [H Hwt]. apply N.eqb_eq in Hwt.
   apply spec_eqb_eq in H. subst sr.
-  match goal with E : Nat.eqb soff roff = true |- _ => apply Nat.eqb_eq in E; subst roff end.
-  repeat match goal with E : N.eqb _ _ = true |- _ => apply N.eqb_eq in E end.
-  match goal with E : (lo + w' <=? N.min Wt Wr) = true |- _ => apply N.leb_le in E; rename E into Hsl end.
   exists at_, ar. split; [reflexivity|]. split; [reflexivity|].
   intros L img v w Hincl Hb Hv Hw.
   destruct (tools_slot_value _ _ _ _ _ _ Hincl Es Hv) as [Hfv ->].
   destruct (txt_reg_value _ _ _ _ _ Er Hw) as [Hfw ->].
   assert (Hvb : le_at img soff sn < 2 ^ Wt).
-  { replace Wt with (8 * N.of_nat sn) by congruence. rewrite <- pow256. apply le_at_bound; assumption. }
+  { rewrite HWt, <- pow256. apply le_at_bound; assumption. }
   assert (Hwb : le_at img soff rn < 2 ^ Wr).
-  { replace Wr with (8 * N.of_nat rn) by congruence. rewrite <- pow256. apply le_at_bound; assumption. }
-  rewrite (agrees_got Wt _ st _ (check_sound Wt _ _ ltac:(eassumption) _ Hvb)).
-  rewrite (agrees_got Wr _ st _ (check_sound Wr _ _ ltac:(eassumption) _ Hwb)).
+  { rewrite HWr, <- pow256. apply le_at_bound; assumption. }
+  rewrite (agrees_got Wt (a_val at_) st _ (check_sound Wt (a_val at_) st Hct _ Hvb)).
+  rewrite (agrees_got Wr (a_val ar) st _ (check_sound Wr (a_val ar) st Hcr _ Hwb)).
   apply (expected_slice Wt Wr st lo w' _ _ Esl).
-  (* both values have the same low [min sn rn] bytes *)
-  set (m := Nat.min sn rn).
-  assert (Hm : le_at img soff sn mod 256 ^ N.of_nat m = le_at img soff rn mod 256 ^ N.of_nat m).
-  { pose proof (le_at_sub img soff sn 0 m Hb ltac:(lia) Hfv) as E1.
-    pose proof (le_at_sub img soff rn 0 m Hb ltac:(lia) Hfw) as E2.
+  (* both values have the same low [m] bytes, where the slice lies *)
+  assert (Hex : exists m, (m <= sn)%nat /\ (m <= rn)%nat /\ lo + w' <= 8 * N.of_nat m).
+  { pose proof (N.le_min_l Wt Wr) as Hl. pose proof (N.le_min_r Wt Wr) as Hr.
+    destruct (Nat.le_ge_cases sn rn) as [Hc|Hc].
+    - exists sn. split; [lia|]. split; [exact Hc|]. lia.
+    - exists rn. split; [exact Hc|]. split; [lia|]. lia. }
+  destruct Hex as (m & Hm1 & Hm2 & HM).
+  assert (Hm : le_at img soff sn mod 2 ^ (8 * N.of_nat m) = le_at img soff rn mod 2 ^ (8 * N.of_nat m)).
+  { pose proof (le_at_sub img soff sn 0 m Hb Hm1 Hfv) as E1.
+    pose proof (le_at_sub img soff rn 0 m Hb Hm2 Hfw) as E2.
     change (256 ^ N.of_nat 0) with 1 in E1, E2. rewrite N.div_1_r in E1, E2.
-    rewrite <- E1, <- E2. reflexivity. }
-  rewrite pow256 in Hm.
-  assert (HM : lo + w' <= 8 * N.of_nat m) by (subst m; lia).
+    rewrite pow256 in E1, E2. rewrite <- E1, <- E2. reflexivity. }
   rewrite <- (bits_mod_pow2 lo w' (8 * N.of_nat m) (le_at img soff sn) HM).
   rewrite <- (bits_mod_pow2 lo w' (8 * N.of_nat m) (le_at img soff rn) HM).
   rewrite Hm. reflexivity.
@@ -269,27 +284,29 @@ Theorem raw_pair_sound : forall specs accs slot id k ra,
     got_at (a_val ar) w = v.
 Proof.
   intros specs accs slot id k ra H. unfold raw_pair_ok in H.
-  destruct (find_spec ra specs) as [[Wr sr]|]; [|discriminate].
-  destruct (find_accessor ra accs) as [ar|]; [|discriminate].
-  destruct (find_entry slot all_tools_slots) as [[soff sn]|] eqn:Es; [|discriminate].
-  destruct (find_entry id txt_layout) as [[roff rn]|] eqn:Er; [|discriminate].
-  repeat (apply andb_true_iff in H; destruct H as [H ?]).
-  match goal with E : Nat.eqb soff _ = true |- _ => apply Nat.eqb_eq in E; subst soff end.
-  match goal with E : Nat.leb _ rn = true |- _ => apply Nat.leb_le in E; rename E into Hk end.
-  repeat match goal with E : N.eqb _ _ = true |- _ => apply N.eqb_eq in E end.
+  destruct (find_spec ra specs) as [[Wr sr]|]; [|discriminate H].
+  destruct (find_accessor ra accs) as [ar|]; [|discriminate H].
+  destruct (find_entry slot all_tools_slots) as [[soff sn]|] eqn:Es; [|discriminate H].
+  destruct (find_entry id txt_layout) as [[roff rn]|] eqn:Er; [|discriminate H].
+  cbv beta iota in H.
+  apply andb_true_iff in H. destruct H as [H Hsr].
+  apply andb_true_iff in H. destruct H as [H Hk]. apply Nat.leb_le in Hk.
+  apply andb_true_iff in H. destruct H as [H Hoff]. apply Nat.eqb_eq in Hoff. subst soff.
+  apply andb_true_iff in H. destruct H as [H HWr]. apply N.eqb_eq in HWr.
+  apply andb_true_iff in H. destruct H as [H Hcr]. apply N.eqb_eq in H.
   exists ar. split; [reflexivity|].
   intros L img v w Hincl Hb Hv Hw.
   destruct (tools_slot_value _ _ _ _ _ _ Hincl Es Hv) as [_ ->].
   destruct (txt_reg_value _ _ _ _ _ Er Hw) as [Hfw ->].
   assert (Hwb : le_at img roff rn < 2 ^ Wr).
-  { replace Wr with (8 * N.of_nat rn) by congruence. rewrite <- pow256. apply le_at_bound; assumption. }
-  rewrite (agrees_got Wr _ sr _ (check_sound Wr _ _ ltac:(eassumption) _ Hwb)).
+  { rewrite HWr, <- pow256. apply le_at_bound; assumption. }
+  rewrite (agrees_got Wr (a_val ar) sr _ (check_sound Wr (a_val ar) sr Hcr _ Hwb)).
   rewrite (le_at_sub img roff rn k sn Hb Hk Hfw).
-  destruct sr as [lo w'| | | |]; try discriminate.
-  - match goal with E : _ && _ = true |- _ => apply andb_true_iff in E; destruct E as [E1 E2] end.
+  destruct sr as [lo w'|lo w'|lo w'|bt vs vc|]; cbv beta iota in Hsr; try discriminate Hsr.
+  - apply andb_true_iff in Hsr. destruct Hsr as [E1 E2].
     apply N.eqb_eq in E1, E2. subst lo w'.
     unfold expected_at. cbn [spec_num]. rewrite bits_div_mod, !pow256. reflexivity.
-  - match goal with E : _ && _ = true |- _ => apply andb_true_iff in E; destruct E as [E1 E2] end.
+  - apply andb_true_iff in Hsr. destruct Hsr as [E1 E2].
     apply Nat.eqb_eq in E1, E2. subst k sn.
     unfold expected_at. cbn [spec_num]. change (256 ^ N.of_nat 0) with 1. rewrite N.div_1_r.
     symmetry. apply N.mod_small. apply le_at_bound; assumption.
